@@ -278,12 +278,12 @@ CHECKS['C13'] = dict(
 
 CHECKS['C09'] = dict(
     title='Query line, cursor and selection evolve exactly as the actions prescribe',
-    rule='process-level state machine: one live fzf (tmux + --listen) per case, 5-40 steps, each a POST of 1-3 chained actions (or typed keys) out of put/change-query, 15 readline editing actions, up/down/first/last/pos/page actions, 12 selection actions; '
+    rule='process-level state machine: one live fzf (tmux + --listen) per case, 5-40 steps, each a POST of 1-3 chained actions (or typed keys) out of put/change-query, 15 readline editing actions, up/down/first/last/pos/page actions, 12 selection actions, next-selected / prev-selected; '
          'lists of 0-60 lines, window heights 4-30, 3 layouts, --multi off/1/2/3/unlimited, --cycle, --track, --filepath-word, 3 info styles, sort on/off, --tac; after every step the GET state must equal the model (query, match count, position/current, ordered selection); '
          'ends with accept / abort / print-query and checks stdout + exit status. non-trivial = the history has a kill/yank or word motion, a selection action and a result-set change',
     assumptions=['the result list of a query is taken from a fresh fzf --filter run of the same options (that equality is property C08)',
                  'when the tracked item vanishes or the list shrinks below the pointer the model adopts the observed valid position (under-specified)',
-                 'next-selected/prev-selected, jump and exclude are not part of this alphabet'],
+                 'jump and exclude are not part of this alphabet'],
     units=[
         U('proc', 'TestVerifC09_Sessions', q(960, 16, cap=900), q(16000, 16, cap=3000), needs_fzf=True),
     ])
